@@ -478,8 +478,40 @@ def r4_join_commit(a, tier):
     return rep
 
 
+def r5_commit_reaches_exit(a, tier):
+    rep = RuleReport(
+        'C05.R5',
+        'a committed failure ends the repetition with a failure: a FailedParse that leaves repeat() has by construction passed the cut test '
+        'of its iteration\'s option() frame (a join after its separator, an element after its own cut); in every function of the parse '
+        'context that calls repeat() (closure, positive_closure) that failure must leave the function as a failure on every path - it must '
+        'not depend on the cut flag of some other frame (an optional() around the call swallows it when that frame saw no cut: the '
+        'repetition then "ends" and even loses the elements matched before)',
+        floor=2,
+    )
+    ctx = a.p.cls(CTX)
+    users = [m for m in ctx.methods.values() if m.name != 'repeat' and any(
+        isinstance(n, ast.Call) and dotted(n.func) in ('self.repeat', 'self._repeat') for n in walk_no_defs(m.node))]
+    for fn in sorted(users, key=lambda m: m.name):
+        class Sem(ScopeSem):
+            def call(self, ex, f, node, state):
+                depth, flags = state
+                if f is self.fn and dotted(node.func) in ('self.repeat', 'self._repeat'):
+                    return [('next', state, None), ('raise', (depth, frozenset(flags | {'committed'})), Exc(FP, 'committed@repeat'))]
+                return super().call(ex, f, node, state)
+        sem = Sem(a, fn)
+        ex = Executor(a.p, a.ct, a.resolver, sem, raises=a.raises)
+        outs = ex.run(fn, (0, frozenset()))
+        swallowed = [o for o in outs if 'committed' in o.state[1] and o.kind != 'raise']
+        raised = [o for o in outs if 'committed' in o.state[1] and o.kind == 'raise']
+        rep.add({'fn': fn.qualname, 'paths_on_which_a_committed_failure_ends_normally': len(swallowed), 'paths_on_which_it_fails': len(raised)})
+        if swallowed or not raised:
+            rep.fail(fn.qualname, 'commit-swallowed', f'{fn.name}(): a committed failure raised by repeat() can end as a normal return (it is caught by a scope '
+                     f'construct around the call whose own frame saw no cut): `s%{{e}}` on `e s x` yields an empty list without consuming anything instead of failing', fn.loc)
+    return rep
+
+
 def r_chain(a, tier):
     return rule_chain(a, 'C05.R-CHAIN')
 
 
-RULES = [r_chain, r1_flag_ownership, r2_scope_protocol, r3_frame_classification, r4_join_commit]
+RULES = [r_chain, r1_flag_ownership, r2_scope_protocol, r3_frame_classification, r4_join_commit, r5_commit_reaches_exit]
